@@ -14,10 +14,9 @@
 //!   `Normal`, default ecal handler).
 //!
 //! SPACE A (programs). For each WORLD in {rich, poor}: ALL programs of length <= k
-//!   (k = 3 quick, 4 thorough) over the alphabet A30 (49 letters, listed in the
-//!   evidence): script = progkit prelude ‖ letters (no closing ret: running off the end
-//!   panics, which is an outcome like any other). Targets: A, B = contract inputs of
-//!   the transaction, C = deployed but NOT an input, D = not deployed.
+//!   (k = 3 quick, 4 thorough) over the alphabet A30 (48 letters, listed in the
+//!   evidence): script = progkit prelude ‖ letters ‖ `ret $one`. Targets: A, B =
+//!   contract inputs of the transaction, C = deployed but NOT an input, D = not deployed.
 //!     script level:  ret; {csiz, bal, tr, croo, ccp, ldc(mode 0)} x {A, C, D};
 //!                    call {C, D} with 0 coins; call {A, C, D} forwarding 1 coin;
 //!     nested:        call A<j> / call B<j>: contracts A and B carry the same body, a
@@ -1283,7 +1282,9 @@ fn access_json(a: &Access) -> Value {
 /// Run one program both ways through the oracle.
 fn run_program(env: &Env, ins: &[Instruction], want_trace: bool) -> ProgOut {
     let mut out = ProgOut::default();
-    let script = env.world.script_bytes(ins);
+    let mut all: Vec<Instruction> = ins.to_vec();
+    all.push(op::ret(RegId::ONE));
+    let script = env.world.script_bytes(&all);
     let mut unlisted_step: Multiset = BTreeMap::new();
     let mut sig: Vec<(String, usize, Vec<Access>, String)> = vec![];
 
@@ -1814,14 +1815,11 @@ fn case_json(env: &Env, alpha: &[Letter], seq: &[u64]) -> Value {
     })
 }
 
+/// One report per key and world (the driver's occurrence counter therefore counts
+/// worlds); the number of programs showing each key goes to the evidence.
 fn report(ctx: &Ctx, acc: &mut Acc) {
     for (key, (what, case)) in std::mem::take(&mut acc.viols) {
-        let n = acc.viol_counts.get(&key).copied().unwrap_or(1);
-        ctx.violation(key.clone(), what.clone(), case.clone());
-        // keep the occurrence count honest (first report counted 1)
-        for _ in 1..n.min(1000) {
-            ctx.violation(key.clone(), what.clone(), case.clone());
-        }
+        ctx.violation(key, what, case);
     }
 }
 
@@ -1950,6 +1948,7 @@ fn explore_programs(ctx: &Ctx) {
                 "instructions_executed_stepwise": acc_total.steps,
                 "contract_table_accesses_judged": acc_total.accesses,
                 "inputs": env.inputs.iter().map(short).collect::<Vec<_>>(),
+                "programs_per_finding_key": acc_total.viol_counts,
             }),
         );
         report(ctx, &mut acc_total);
@@ -2016,7 +2015,14 @@ fn replay(case: &Value, ctx: &Ctx) {
                 .iter()
                 .flat_map(|i| alpha[*i as usize].ins.iter().copied())
                 .collect();
-            let out = run_program(&env, &ins, false);
+            let trace = std::env::var("C30_TRACE").is_ok();
+            let out = run_program(&env, &ins, trace);
+            if trace {
+                for t in &out.trace {
+                    eprintln!("  {t}");
+                }
+                eprintln!("  end={} hist={:?}", out.end, out.hist);
+            }
             for (key, what) in out.findings {
                 ctx.violation(key, what, case.clone());
             }
